@@ -34,6 +34,33 @@ func main() {
 		pw = bufio.NewWriter(pf)
 		defer pw.Flush()
 	}
+	if *profile == "enum" {
+		// small-scope exhaustive enumeration: -n bounds the number of expressions (0 = all), the seed picks the stride offset
+		exprs := gen.EnumExprs(3)
+		inputs := gen.EnumInputs(3)
+		total := len(exprs)
+		stride := 1
+		if *n > 0 && *n < total {
+			stride = total / *n
+		}
+		cases := 0
+		k := 0
+		for i := int(*seed) % stride; i < total; i += stride {
+			t := gen.AllTmpls[k%len(gen.AllTmpls)]
+			k++
+			for j, c := range gen.EnumCases(exprs, i, inputs, t) {
+				fmt.Fprintln(w, c.Sexp())
+				cases++
+				if pw != nil && j == 0 {
+					fmt.Fprintf(pw, "## %s tmpl=%s wf=%v\n%s", c.ID, c.Tmpl.Name(), c.WF, gen.GrammarText(c.Rules))
+				}
+			}
+		}
+		w.Flush()
+		f.Close()
+		fmt.Fprintf(os.Stderr, "gen: enumeration of %d expressions (stride %d), %d cases\n", total, stride, cases)
+		return
+	}
 	p := gen.ProfileByName(*profile)
 	cases := 0
 	for i := 0; i < *n; i++ {
